@@ -256,6 +256,7 @@ func vfC06Direct(rec *evid.Rec, ep int) {
 	fs := refs.New()
 	fm := vfNewFileMap(max)
 	first := map[uint64]string{}
+	reissued := map[uint64]bool{} // values the table handed out again for another path
 	var ops []string
 	lastTrigger := "none"
 	for i := 0; i < 200; i++ {
@@ -268,7 +269,8 @@ func vfC06Direct(rec *evid.Rec, ep int) {
 				lastTrigger = "eviction"
 			}
 			if fp, seen := first[id]; seen && fp != p {
-				rec.Violate("C06/value-reissued-for-other-path/after="+lastTrigger,
+				reissued[id] = true
+				rec.Violate("C06/freed-value-reissued-for-another-path",
 					fmt.Sprintf("handle value %d was first issued for %s and is now issued for %s [max=%d]", id, fp, p, max),
 					map[string]any{"episode": ep, "max": max, "ops": append([]string(nil), ops...)})
 			} else if !seen {
@@ -288,7 +290,7 @@ func vfC06Direct(rec *evid.Rec, ep int) {
 			rec.Eval(1)
 			if f, ok := fm.Get(id); ok {
 				if gp, _ := vfNodePath(f); gp != first[id] {
-					rec.Violate("C06/value-reaches-other-path/after="+lastTrigger,
+					rec.Violate("C06/old-value-resolves-to-other-path/"+map[bool]string{true: "via-reissued-value", false: "without-reissue"}[reissued[id]],
 						fmt.Sprintf("handle value %d first issued for %s now resolves to %s [max=%d]", id, first[id], gp, max),
 						map[string]any{"episode": ep, "max": max, "ops": append([]string(nil), ops...)})
 				}
@@ -329,11 +331,20 @@ func vfC06Handlers(rec *evid.Rec, ep int) {
 	vfSetMaxHandles(srv.nfs, max)
 	c := srv.client()
 	first := map[uint64]string{}
+	reissued := map[uint64]bool{}
 	var ops []string
 	lastTrigger := "none"
+	via := func(id uint64) string {
+		// a value that the table holds for another path now was necessarily handed out again
+		if tbl, _ := vfHandleTable(srv.nfs.fileMap); reissued[id] || (tbl[id] != "" && tbl[id] != first[id]) {
+			return "via-reissued-value"
+		}
+		return "without-reissue"
+	}
 	note := func(h uint64, p string) {
 		if fp, seen := first[h]; seen && fp != p {
-			rec.Violate("C06/handler/value-reissued-for-other-path/after="+lastTrigger,
+			reissued[h] = true
+			rec.Violate("C06/handler/freed-value-reissued-for-another-path",
 				fmt.Sprintf("handle value %d was first issued for %s and is now issued for %s [max=%d]", h, fp, p, max),
 				map[string]any{"episode": ep, "max": max, "ops": append([]string(nil), ops...)})
 		} else if !seen {
@@ -387,7 +398,7 @@ func vfC06Handlers(rec *evid.Rec, ep int) {
 			}
 			for _, op := range fs.LogSlice(lo, fs.LogLen()) {
 				if op.Path != p {
-					rec.Violate("C06/handler/request-served-against-other-path/after="+lastTrigger,
+					rec.Violate("C06/handler/request-served-against-other-path/"+via(id),
 						fmt.Sprintf("READ with handle %d (issued for %s) made the backend touch %s [max=%d]", id, p, op.Path, max),
 						map[string]any{"episode": ep, "max": max, "ops": append([]string(nil), ops...)})
 					break
@@ -396,7 +407,7 @@ func vfC06Handlers(rec *evid.Rec, ep int) {
 			if r.Status == 0 {
 				want, _ := fs.Bytes(p)
 				if string(r.Data) != string(want) {
-					rec.Violate("C06/handler/other-objects-data-returned/after="+lastTrigger,
+					rec.Violate("C06/handler/other-objects-data-returned/"+via(id),
 						fmt.Sprintf("READ with handle %d (issued for %s) returned %q", id, p, r.Data),
 						map[string]any{"episode": ep, "max": max, "ops": append([]string(nil), ops...)})
 				}
